@@ -88,3 +88,72 @@ func TestC16_register_parallel(t *testing.T) {
 		NoShrink: true,
 	})
 }
+
+// C16 — explicit sets from several goroutines at once: when all have returned, the value every listener was told
+// last is the limit in force (a set that stores the value and announces it in two separate steps lets a slower
+// setter announce a value that has already been replaced).
+
+type c16sCase struct {
+	Traced    bool `json:"traced,omitempty"`
+	Workers   int  `json:"workers"`
+	Each      int  `json:"each"`
+	Listeners int  `json:"listeners"`
+	Slow      int  `json:"slow"` // yields inside the callback (it runs under the limit's lock: setters pile up behind it)
+	Trials    int  `json:"trials"`
+}
+
+func TestC16_set_parallel(t *testing.T) {
+	kit.RequireMode(t, "std")
+	kit.Check(t, kit.Prop[c16sCase]{
+		ID: "C16", Quick: 150, Thor: 8_000,
+		Rule: "2-8 real threads call SetLimit with distinct values on one settable limit (plain or traced) at the same moment while 1-3 listeners take their time, repeated on fresh instances: after all calls returned every listener's last value equals EstimatedLimit(); non-trivial = at least 3 setters",
+		Gen: func(t *rapid.T) c16sCase {
+			return c16sCase{Traced: rapid.Bool().Draw(t, "traced"), Workers: rapid.IntRange(2, 8).Draw(t, "workers"), Each: rapid.IntRange(1, 20).Draw(t, "each"),
+				Listeners: rapid.IntRange(1, 3).Draw(t, "listeners"), Slow: rapid.SampledFrom([]int{0, 1, 5, 50}).Draw(t, "slow"),
+				Trials: rapid.SampledFrom([]int{50, 200, 500}).Draw(t, "trials")}
+		},
+		Run: func(_ *testing.T, c c16sCase) kit.Outcome {
+			for trial := 0; trial < c.Trials; trial++ {
+				b := buildLimit(LimitCfg{Algo: "settable", Initial: 1, Traced: c.Traced}, nil)
+				sl := b.Inner.(interface{ SetLimit(int) })
+				last := make([]atomic.Int64, c.Listeners)
+				for i := range last {
+					last[i].Store(-1)
+					b.Outer.NotifyOnChange(func(v int) {
+						for k := 0; k < c.Slow; k++ {
+							runtime.Gosched()
+						}
+						last[i].Store(int64(v))
+					})
+				}
+				var ready, wg sync.WaitGroup
+				var gate atomic.Bool
+				for g := 0; g < c.Workers; g++ {
+					wg.Add(1)
+					ready.Add(1)
+					go func(g int) {
+						defer wg.Done()
+						ready.Done()
+						for !gate.Load() {
+							runtime.Gosched()
+						}
+						for k := 0; k < c.Each; k++ {
+							sl.SetLimit(2 + g*1000 + k) // distinct, never the initial value
+						}
+					}(g)
+				}
+				ready.Wait()
+				gate.Store(true)
+				wg.Wait()
+				est := b.Outer.EstimatedLimit()
+				for i := range last {
+					if got := int(last[i].Load()); got != est {
+						return kit.Viol("settable:stale-notification-after-concurrent-sets", "trial %d: %d threads x %d SetLimit calls returned; EstimatedLimit() reports %d but listener #%d was last told %d", trial, c.Workers, c.Each, est, i, got)
+					}
+				}
+			}
+			return kit.Outcome{NonTrivial: c.Workers >= 3, Labels: []string{fmt.Sprintf("workers:%d", c.Workers), fmt.Sprintf("slow:%d", c.Slow)}}
+		},
+		NoShrink: true,
+	})
+}
